@@ -144,9 +144,14 @@ func c09(c *Ctx) {
 						}
 						return true, engine.True
 					}
-					if cd.IsRel && (strings.HasSuffix(cd.X, ".Suffrage") || strings.HasSuffix(cd.Y, ".Suffrage")) {
+					// only the suffrage recorded in the latest configuration counts; a
+					// value cached elsewhere (followerReplication.peer) may be stale
+					isCfgSuffrage := func(d string) bool {
+						return strings.HasSuffix(d, ".Suffrage") && strings.Contains(d, "recv.configurations.latest")
+					}
+					if cd.IsRel && (isCfgSuffrage(cd.X) || isCfgSuffrage(cd.Y)) {
 						lhs := cd.X
-						if strings.HasSuffix(cd.Y, ".Suffrage") {
+						if isCfgSuffrage(cd.Y) {
 							lhs = cd.Y
 						}
 						return voterCond(cd, lhs)
